@@ -7,10 +7,11 @@ RULE = ("corr:write = bytes of schemaless_writer vs the model's specification en
         "corr:wire-leaf = BinaryEncoder methods one by one on exhaustive boundary families (all varint-length boundaries, int extremes, "
         "float specials and rounding boundaries, all 256 byte values, string lengths 0/1/63/64/8191/8192 with 1-4 byte code points); "
         "non-trivial = datum has a node beyond depth 0 or the leaf value is a boundary value; distinct by (schema, datum)")
-TRUSTED = ["struct.pack is CPython's; the model's binary32 rounding (SpecFloat.binary_round 24 128) is validated bit-exactly against it here"]
+TRUSTED = ["struct.pack is CPython's; the model's binary32 rounding (SpecFloat.binary_round 24 128, proved to be IEEE round-to-nearest-even "
+           "against Flocq's real-number specification: C02_float_is_IEEE_binary32_rne) is validated bit-exactly against it here",
+           "the float-leaf theorems depend on the standard library's real-number axioms and excluded middle through Flocq (named under obligations)"]
 ASSUMPTIONS = []
-PARTIAL = ["d2s_spec (binary32 rounding = round-to-nearest-even in the sense of a real-number specification) is not proved; the float leaf is "
-           "SpecFloat.binary_round, an axiom-free executable IEEE specification from the standard library"]
+PARTIAL = []
 
 
 def run(ctx):
